@@ -224,6 +224,7 @@ pub fn run_seq(sc: &SeqScenario) -> Outcome {
     let mut tasks: Vec<STask> = Vec::new();
     let mut next_who = 1usize;
     let mut closed = false;
+    let mut closes = 0usize;
     let mut steps = 0usize;
     while steps < sc.depth && w(|w| w.viol.is_empty()) {
         // enabled operations, benign first
@@ -261,7 +262,7 @@ pub fn run_seq(sc: &SeqScenario) -> Outcome {
         for n in &sc.resize_targets {
             ops.push((SOp::Resize(*n), Cost::FREE));
         }
-        if sc.close && !closed {
+        if sc.close && closes < 2 {
             ops.push((SOp::Close, Cost::FREE));
         }
         if sc.cancel {
@@ -346,6 +347,7 @@ pub fn run_seq(sc: &SeqScenario) -> Outcome {
             }
             SOp::Close => {
                 closed = true;
+                closes += 1;
                 guarded_as(900, || op_close(900, &pool));
                 if !pool.is_closed() {
                     w(|w| w.violate(&["C06"], "is-closed-false", "is_closed() is false after close() returned".to_string()));
